@@ -142,8 +142,10 @@ def run_shard(binary, prop, tier, seed, shard, nshards, scale, variant, workdir,
             restarts += 1
             continue
         if timed_out:
-            crashes.append(dict(key="hang:%s" % (re.sub(r"[^A-Za-z0-9_=,.:-]+", "_", desc)[:60] or "case"), idx=idx, desc=desc, detail="watchdog %ds expired" % timeout, variant=variant, timeout=True))
-        else:
+            # confirmed hang: report it and stop this shard (every further hang would cost two watchdog periods)
+            crashes.append(dict(key="hang:%s" % prop, idx=idx, desc=desc, detail="watchdog %ds expired twice on this case; the rest of this shard was not run" % timeout, variant=variant, timeout=True))
+            break
+        if True:
             key = sanitizer_key(stderr)
             if key is None:
                 sig = -rc if rc < 0 else rc
@@ -182,7 +184,7 @@ def run_property(prop, cfg, tier, seed, log):
     for v in variants:
         for s in range(v["shards"]):
             jobs.append((v, s))
-    timeout = cfg.get("timeout", {}).get(tier, 1500 if tier == "quick" else 7200)
+    timeout = cfg.get("timeout", {}).get(tier, 900 if tier == "quick" else 7200)
     with cf.ThreadPoolExecutor(max_workers=cfg.get("parallel", 16)) as ex:
         futs = {}
         for v, s in jobs:
